@@ -58,6 +58,7 @@ type Location struct {
 	vcache    map[string]*CRLSpec
 	pcache    map[string]*x509.Certificate
 	SlowFirst time.Duration // delay of the first good delivery only
+	StallFor  time.Duration // how long a request hangs in state oStall (default 20 s)
 	FailFirst int           // the first FailFirst requests (counted by Fetches) are refused, whatever State says
 }
 
@@ -322,6 +323,9 @@ func (l *Location) serve(hit *NetHit) Delivery {
 		d.Body = nil
 	case oStall:
 		d.Kind, d.Delay = dStall, 20*time.Second
+		if l.StallFor > 0 {
+			d.Delay = l.StallFor
+		}
 	case oWrongDoc:
 		d.Body = l.Issuer.Cert.Raw
 	}
